@@ -21,6 +21,7 @@ RULE = (
     "Hypothesis draws sampler configurations (kernel x resampler x clustering x evaluation mode x d), random_state values, numbers of "
     "interleaved global draws, seeds a != b, iteration indices, and (for the mixture classes) data sets/weights from the C15 generator with "
     "random_state in {None, int}. Non-trivial: repro/stream-sampler = the run performed >= 1 clustering fit; stream-mixture = fit with >= 2 components."
+    ' The *_full check draws a complete configuration with vlib.cfggen: every constructor option gets a generated value in every case (d, evaluation mode incl. one/two blobs, zero-likelihood region, narrow target, kernel, resampler, clustering, normalize, cluster_every, n_max_clusters, split_threshold, ess_ratio, ESS/volume-variation metric, n_particles incl. odd, n_steps/n_max_steps, periodic/reflective indices, pool kind, extra likelihood args/kwargs, random_state int/NumPy-int/None); the oracle is the same.'
 )
 ASSUMPTIONS = [
     "the library draws from numpy's global stream (np.random.*); 'stream state afterwards' is observed through the next np.random.random()",
@@ -80,6 +81,49 @@ def exec_repro(case):
         raise Violation(f"random_state={case['rs']} and random_state={case['rs_other']} give identical particle histories",
                         sig={"kind": "seed-ignored"})
     return {"nontrivial": bool(case["clustering"]), "classes": ["clustering" if case["clustering"] else "noclustering", "kernel:" + case["kernel"]]}
+
+
+def full_cases():
+    from vlib import cfggen
+
+    return st.tuples(cfggen.full_config(pools=(None, None, "permuting", "executor", 1)), st.integers(0, 2**31 - 1), st.integers(0, 50)).map(
+        lambda t: dict(t[0], rs_other=t[1], k_draws=t[2]))
+
+
+def snap_full(case, rs):
+    from vlib import cfggen
+
+    if case["random_state"] == "np":
+        rs = np.int64(rs)
+    s, t = cfggen.build(case, random_state=rs)
+    with quiet():
+        lib_call(s.run, n_total=3 * case["n_particles"], progress=False, what="Sampler.run")
+    snap = history_snapshot(s.state)
+    o = lib_call(s.posterior, trim_importance_weights=False, what="posterior")
+    return snap, np.asarray(o[1]), float(s.evidence()[0])
+
+
+def exec_repro_full(case):
+    """reproducibility over complete random configurations (vlib.cfggen)"""
+    from vlib import cfggen
+
+    rs, other = int(case["rs_value"]), int(case["rs_other"])
+    if rs == other:
+        return {"nontrivial": False, "classes": ["equal-seeds-skipped"]}
+    np.random.seed(case["pool_seed"])
+    s1, w1, z1 = snap_full(case, rs)
+    np.random.random(case["k_draws"])
+    s2, w2, z2 = snap_full(case, rs)
+    diff = snapshots_equal(s1, s2, keys=LABEL_KEYS)
+    if diff is not None or not np.array_equal(w1, w2) or z1 != z2:
+        raise Violation(f"two constructions with random_state={rs} and identical inputs are not bit-identical "
+                        f"({diff or 'weights/evidence differ'}; log-evidence {z1!r} vs {z2!r})", sig={"kind": "not-reproducible"})
+    s3, w3, z3 = snap_full(case, other)
+    if snapshots_equal(s1, s3, keys=("u",)) is None:
+        raise Violation(f"random_state={rs} and random_state={other} give identical particle histories", sig={"kind": "seed-ignored"})
+    return {"nontrivial": bool(case["clustering"]) or case["metric"] != "ess" or case["pool"] is not None,
+            "classes": ["metric:" + case["metric"], "pool:%s" % case["pool"], "mode:" + case["mode"], "kernel:" + case["kernel"]],
+            "sample": cfggen.summary(case)}
 
 
 # ----------------------------------------------------------------------------- stream dependence: mixture classes
@@ -195,6 +239,8 @@ def exec_twin(case):
 
 
 CHECKS = [
+    Check("repro_full", full_cases, exec_repro_full, n={"quick": 32, "thorough": 600}, shards={"quick": 16, "thorough": 16},
+          shrink={"quick": False, "thorough": True}),
     Check("repro", repro_cases, exec_repro, n={"quick": 32, "thorough": 400}, shards={"quick": 16, "thorough": 16},
           shrink={"quick": False, "thorough": True}),
     Check("stream_mixture", mix_cases, exec_mix, n={"quick": 320, "thorough": 4000}, shards={"quick": 16, "thorough": 16}),
